@@ -13,6 +13,7 @@ import collections
 import copy
 import json
 import random
+import types
 import re
 import time
 from datetime import datetime
@@ -681,8 +682,35 @@ class Peer:
         if announced and carried < announced[0]:
             self.cch._inbound.clear()
             return None, 'content header announces %d bytes, the body frames carry %d' % (announced[0], carried)
-        m = self.cch._build_message(auto, Message)
-        return m, '%d frames left' % len(self.cch._inbound)
+        path = rng.choice(['build', 'build', 'generator', 'callback', 'start'])
+        self.last_path = path
+        if path == 'build':
+            m = self.cch._build_message(auto, Message)
+            return m, '%d frames left' % len(self.cch._inbound)
+        # the public consumption calls, each with the auto_decode option the application passed
+        got = []
+        import amqpstorm.channel as chmod
+        saved = chmod.time
+        chmod.time = types.SimpleNamespace(sleep=lambda s: None, time=saved.time)
+        try:
+            if path == 'generator':
+                got = list(self.cch.build_inbound_messages(break_on_empty=True, auto_decode=auto))
+            else:
+                def cb(message):
+                    got.append(message)
+                    self.cch.remove_consumer_tag('ct')        # one delivery: the consumer leaves, start_consuming returns
+                self.cch._consumer_callbacks['ct'] = cb
+                self.cch.add_consumer_tag('ct')
+                if path == 'callback':
+                    self.cch.process_data_events(auto_decode=auto)
+                else:
+                    self.cch.start_consuming(auto_decode=auto)
+                self.cch.remove_consumer_tag('ct')
+        finally:
+            chmod.time = saved
+        if len(got) != 1:
+            return None, '%s handed over %d messages' % (path, len(got))
+        return got[0], '%d frames left' % len(self.cch._inbound)
 
 
 def norm(v):
@@ -852,6 +880,24 @@ def check_roundtrip(cx, rng, peers, via_message, auto, frame_max, body, props, l
             if not same(pview, pexp):
                 r = diff_reason(cprops, pview, pexp) or 'value-changed'
                 sig, what = 'C17/view-props/' + r, 'consumed properties view %r, expected %r' % (pview, pexp)
+    if not sig and crng.random() < 0.5:
+        # forward the consumed message as a router would: what goes out must be the raw body and properties again
+        peer.out.clear()
+        m._channel = peer.pch
+        try:
+            m.publish('fwd', 'ex')
+            fcid, fframes = peer.out[-1]
+            fbody = b''.join(f.value for f in fframes[2:])
+            fprops = {k: v for k, v in fframes[1].properties.to_dict().items() if v is not None} if hasattr(fframes[1].properties, 'to_dict') \
+                else {k: getattr(fframes[1].properties, k) for k in ALL14 if getattr(fframes[1].properties, k, None) is not None}
+            if fframes[1].body_size != len(raw_body) or fbody != raw_body:
+                sig, what = 'C17/forward/body-differs', 'a consumed message (%d bytes, content_encoding %r) re-published with Message.publish went out as %d bytes (header announces %d)' % (
+                    len(raw_body), cprops.get('content_encoding'), len(fbody), fframes[1].body_size)
+            elif norm_props(fprops) != norm_props(cprops):
+                sig, what = 'C17/forward/props-differ', 'forwarded properties %r, consumed %r' % (norm_props(fprops), norm_props(cprops))
+        except Exception as why:   # noqa
+            sig, what = 'C17/forward/raises', 'Message.publish of a consumed message raised %r' % (why,)
+        rep.count('roundtrip_forwarded', 'auto_decode' if auto else 'raw')
     if sig:
         rep.violation(sig, what, replay)
     if not via_message:
@@ -860,6 +906,7 @@ def check_roundtrip(cx, rng, peers, via_message, auto, frame_max, body, props, l
             tok(props), len(frames), tok(raw_body), tok(view), tok(expected_sent)), replay)
     rep.case(('rt', line), len(frames) > 3 or bool(props))
     rep.count('roundtrip_frames', min(len(frames) - 2, 4))
+    rep.count('roundtrip_consumed_via', getattr(peer, 'last_path', '?') + ('/auto_decode' if auto else '/raw'))
 
 
 # ------------------------------------------------------------------------------------------------
